@@ -19,6 +19,11 @@ class C01(Check):
     trusted = ["hex/base64/base32 text codecs of Go's encoding/* are outside the model (fields held as the octets they denote)",
                "EDNS0 option and SVCB parameter values are (code, packed value) pairs at this level"]
 
+    partial = ["wire -> value -> wire (record_converse_partial) covers 70 of the 81 types: not the kinds nsec, opt, svcb, apl, name lists "
+               "and gateway (AMTRELAY, APL, CSYNC, HIP, HTTPS, IPSECKEY, NSEC, NSEC3, NXT, OPT, SVCB), which the harness checks",
+               "the message-level uncompressed round trip is proved through C04's unpack_of_pack for canonical messages; header and "
+               "RCODE split by exhaustive kernel-checked sweeps"]
+
     def nontrivial(self, c):
         return len(c["args"][0]) > 60
 
